@@ -1,6 +1,7 @@
 #!/bin/sh
 # tools/mutdbg.sh <patch> <command...> : run a command with TOPSIM_REPO pointing at a scratch clone with the patch applied
 p="$1"; shift
+[ -d /var/tmp/topsim-dbg/.git ] || git clone -q /repo /var/tmp/topsim-dbg
 git -C /var/tmp/topsim-dbg checkout -q -- . ; git -C /var/tmp/topsim-dbg pull -q 2>/dev/null
 git -C /var/tmp/topsim-dbg apply "$p" || { echo "PATCH DOES NOT APPLY"; exit 9; }
 TOPSIM_REPO=/var/tmp/topsim-dbg PYTHONPATH=/var/tmp/topsim-dbg "$@"
